@@ -9,3 +9,5 @@ import PvProofs.C18
 #print axioms PvProofs.C18.determinism_sources_benign
 #print axioms PvProofs.C18.determinism_facts_nonvacuous
 #print axioms PvProofs.C18.keeper_state_constant
+#print axioms PvProofs.C18.sorted_iteration_order_independent
+#print axioms PvProofs.C18.commutative_iteration_order_independent
